@@ -294,10 +294,32 @@ class PeersDriver(ClientDriver):
         if srv is None or srv.smgr is None:
             return
         pm = srv.smgr.peer_mgr
-        now = w.sim.wall()
-        myhosts = {str(p.host) for p in pm.myselves}
         for is_tor in (False, True):
-            tuples = pm.on_peers_subscribe(is_tor)
+            self.judge_list(pm, pm.on_peers_subscribe(is_tor), is_tor, w.sim.wall())
+        # ... and what real client sessions are told (server.peers.subscribe): a clearnet client, and one
+        # arriving through the Tor proxy when the server has detected one
+        for kind in ('clear', 'tor'):
+            proxy = pm.proxy_address()
+            if kind == 'tor' and not proxy:
+                continue
+            c = self.list_clients.get(kind) if hasattr(self, 'list_clients') else None
+            if c is None:
+                if not hasattr(self, 'list_clients'):
+                    self.list_clients = {}
+                addr = (str(proxy.host), None) if kind == 'tor' else ('8.9.9.%d' % (7 + len(self.list_clients)), None)
+                c = self.list_clients[kind] = w.new_client('lister-' + kind, addr=addr)
+            if not self.ensure_connected(c):
+                continue
+            t_send = w.sim.wall()
+            r = self.ask(c, 'server.peers.subscribe', [])
+            if w.server is None or r is None or 'result' not in r:
+                continue
+            self.probe('c19.session_lists.' + kind)
+            self.judge_list(pm, [tuple(x) for x in r['result']], kind == 'tor', t_send, via=kind + ' client session')
+
+    def judge_list(self, pm, tuples, is_tor, now, via='PeerManager'):
+        if True:
+            myhosts = {str(p.host) for p in pm.myselves}
             self.probe('c19.list_calls')
             clear = {}
             onion = 0
@@ -339,7 +361,7 @@ class PeersDriver(ClientDriver):
             n_clear = sum(len(v) for v in clear.values())
             cap = 50 if is_tor else max(10, (len(tuples) - onion) // 4)
             if onion > cap:
-                self.violate('C19', 'onion_cap', f'{onion} onion peers advertised (cap {cap}, is_tor={is_tor})')
+                self.violate('C19', 'onion_cap', f'{onion} onion peers advertised to a {via} (cap {cap}, is_tor={is_tor})')
             if onion:
                 self.probe('c19.onion_listed')
             if n_clear:
